@@ -21,6 +21,18 @@ def main():
     except ModuleNotFoundError:
         print('no check for', prop)
         sys.exit(2)
+    # overall wall-clock limit of one check run (infrastructure guard, exit 2 = no verdict); every in-process call of the
+    # real code additionally runs under common.deadline, so a hang of the code under test is reported as a finding
+    limit = float(os.environ.get('VERIF_CHECK_LIMIT', '2400' if args.tier == 'quick' else '14400'))
+
+    def guard():
+        import time
+        time.sleep(limit)
+        sys.stdout.flush()
+        print('INFRASTRUCTURE ERROR in check %s: wall-clock limit of %.0f s exceeded (exit 2, not a verdict)' % (prop, limit), flush=True)
+        os._exit(2)
+    import threading
+    threading.Thread(target=guard, daemon=True).start()
     try:
         if args.replay:
             sys.exit(mod.replay(args.replay))
